@@ -43,7 +43,7 @@ check("C14", "exploration", T + "independent-parser oracle: json.Valid + token-l
       "Held on every frame explored with hostile names and cells (all byte values, controls, quotes, backslashes, U+2028/9, malformed UTF-8), finite floats and NaN, empty and large frames.",
       "Trusted: encoding/json; per-byte U+FFFD replacement as the decoding of invalid bytes.", "DESIGN.md §2 C14")
 check("C15", "fault_enumeration", T + "fault injection at the io.Reader / io.Writer / database/sql driver boundary with every fault position enumerated per input (byte offsets x chunkings, rows, statement numbers)",
-      "Held for every (input, fault position) enumerated: no panic; a read either reports an error or equals the fault-free result; a write either reports an error or was accepted completely. Positions are exhaustive per input, inputs are sampled.",
+      "Held for every (input, fault position) enumerated: no panic; a read either reports an error or equals the fault-free result; a write either reports an error or was accepted completely. Positions are exhaustive per input (every byte offset x four chunkings, every row, every statement number) for all inputs except the rare CSV documents with more than 1000 rows, which get faults on and around every row boundary from row 980 on plus random offsets; inputs are sampled.",
       "Trusted: the in-memory driver (harness/memsql) and the fault-injecting reader/writer in props/c15.go.", "DESIGN.md §2 C15")
 check("C16", "exploration", T + "differential monitor against strconv.AppendFloat('f',-1,64) through the formatter hook (five destination buffer states) and through ToJSON; structured value classes + bijectively mixed counters",
       "Held on every float explored (every binary exponent, powers of ten/two with neighbours, halfway decimals, hard cases, subnormals, millions to billions of distinct random bit patterns). A sample of 2^64 inputs.",
